@@ -151,6 +151,13 @@ func VerifC09DeleteRepo() {
 	vAssert(vKeysUnder(f.vmeta, "labels/r/") == 0, "labels-removed")
 	vAssertSame(beforeM, f.meta, []string{"repos/r2/", "bundles/r2/"}, "other-repository-metadata-untouched")
 	vAssertSame(beforeV, f.vmeta, []string{"labels/r2/"}, "other-repository-labels-untouched")
+	// a later, ordinary operation on the other repository behaves as if the first had never run: deleting r2's
+	// bundle removes the bundle, its file list and the label on it, and an unknown bundle is still refused
+	vAssert(DeleteBundle("r2", stores, vB3) != nil, "deleting-an-unknown-bundle-is-refused")
+	vAssert(DeleteBundle("r2", stores, vB1) == nil, "delete-bundle-succeeds")
+	vAssert(vKeysUnder(f.meta, "bundles/r2/") == 0, "bundle-and-file-lists-removed")
+	vAssert(vKeysUnder(f.vmeta, "labels/r2/") == 0, "label-on-the-deleted-bundle-removed")
+	vAssert(vKeysUnder(f.meta, "repos/r2/") == 1, "repository-descriptor-kept")
 }
 
 // VerifC09DeleteCrash: the process running DeleteRepo dies at an arbitrary mutating store call (which did or did
